@@ -1757,8 +1757,9 @@ func (self *LockDB) doTimeOut(lock *Lock, forcedExpried bool, removeWaited bool)
 			lockManager.waited = false
 		}
 		// the request behind the one that leaves is the head of the queue now, and may be admissible
-		// where this one was not
-		requireWakeup = lockManager.waited
+		// where this one was not (on a key that is held: requests queued on a free key wait for it to
+		// be taken, and somebody else giving up is not that)
+		requireWakeup = lockManager.waited && lockManager.locked > 0
 		lockManager.state.WaitCount--
 		if self.subscribeChannels != nil && lock.command.TimeoutFlag&protocol.TIMEOUT_FLAG_PUSH_SUBSCRIBE != 0 {
 			_ = self.subscribeChannels[lockManager.glockIndex].Push(lockCommand, protocol.RESULT_TIMEOUT, uint16(lockManager.locked), lock.locked, lockManager.GetLockData())
@@ -2761,7 +2762,7 @@ func (self *LockDB) cancelWaitLock(lockManager *LockManager, command *protocol.L
 			lockManager.waited = false
 		}
 		// as after a timeout: the queue has a new head
-		requireWakeup = lockManager.waited
+		requireWakeup = lockManager.waited && lockManager.locked > 0
 		lockManager.state.WaitCount--
 	}
 
